@@ -39,7 +39,7 @@ P = {
  'C09': ("Lean bracket theorem: for every fuel, window, poll period, pending message, clock and go parameters negamax/quiescence/deepen/go leave the visible board unchanged (every exit path incl. abort at any node), by induction, from C03's unmake_make; sessions by induction over consecutive searches; tied to the code by enumerating EVERY poll point of small searches (stop and quit, movetime expiry under the virtual clock) and reading the board back through the hook.",
          TB + "hypotheses H1/H2 (unmake∘make = id on wf boards; wf preserved by legal moves) are discharged by C03 / checked by the correspondence.",
          "Lean 4 invariant proof by induction over the search recursion + exhaustive interruption-point enumeration", "§4 C09"),
- 'C10': ("Lean theorems countRepetitions_value/spec/threefold_iff characterise the repetition counter for every history, start index and half-move window and connect it to 'occurred three times' under explicit hypotheses; max_half_moves = 100 on the regenerated constant, fifty_only_after_100; engine-level correspondence on histories with repetitions, on the same game re-sent as a FEN with clocks, on half-move clocks 0..150, and on a validated corpus of perpetual-check positions where the rule decides the depth-4 value below the root (expected value from the executable path-dependent specification Model/RepSpec run through the verified alpha-beta).",
+ 'C10': ("Lean theorems countRepetitions_value/spec/threefold_iff characterise the repetition counter for every history, start index and half-move window and connect it to 'occurred three times' under explicit hypotheses; max_half_moves = 100 on the regenerated constant, fifty_only_after_100; engine-level correspondence on histories with repetitions, on the same game re-sent as a FEN with clocks, on half-move clocks 0..150, and on a validated corpus of perpetual-check positions where the rule decides the depth-4 value below the root (expected value from the executable path-dependent specification Model/RepSpec run through the verified alpha-beta). C10Search/C10Rep/C10Deep: the search MODEL cuts a node off as a repetition exactly when its position occurred three times in game + line (every node, every depth), and go depth 1..3 after a game reports the exact path-dependent minimax value of that specification; a graph-history witness at depth 5 (C10DeepGhi) shows why exactness cannot extend further.",
          TB + "64-bit hash collisions excluded by hypothesis HashInj inside the theorem.",
          "Lean 4 theorem about the executable model + differential testing against ZobristHistory through a hook", "§4 C10"),
  'C11': ("Lean theorems: black_tables_mirror (1152 entries, regenerated), eval_flip for EVERY board, evaluate_flip incl. terminal positions (check detection proved flip-equivariant via C04), terminal_sign, nearer_mate_better, score_mate_*/score_mated_* arithmetic for both colours; C11Search: wf_flipBoard, equivariance of legal moves/successors/horizon test/terminal status under the flip (via the mailbox Spec), specScore_flip — the reported score of the exact minimax value is flip-invariant at EVERY depth — and search_flip for the engine model at d<=3 (via go_eq_spec); tied to the code by static evaluation of positions and their flips and depth<=3 searches of both.",
